@@ -536,7 +536,9 @@ impl JpegSpec {
                     if r > 0 || !br.is_empty() {
                         eobrun += 1;
                         be.extend(br.drain(..));
-                        if eobrun == 0x7fff || be.len() > 937 {
+                        // (libjpeg also ends a run when more than 937 correction bits are pending; such an early end would
+                        // have to be recorded as a reset point in the jbrd data - the scripted reset points cover that case)
+                        if eobrun == 0x7fff {
                             emit_eobrun(&mut t, &mut eobrun, &mut be, last_ac_tbl);
                         }
                     }
